@@ -271,7 +271,7 @@ class C02(Check):
                 if has_failing_check and mine[0] == gf[0]:
                     def blank(t):
                         s_ = _json.dumps(t)
-                        for name in sorted(gen.USER_ERRS + ["CallableRuntimeError"], key=len, reverse=True):
+                        for name in sorted(gen.USER_ERRS + gen.SDK_ERRS + ["CallableRuntimeError"], key=len, reverse=True):
                             s_ = s_.replace(name, "*")
                         return s_
                     if blank(list(mine)) == blank(list(gf)):
@@ -374,7 +374,7 @@ class C04(Check):
         return plans
 
     def oracle(self, ix, cfg, golden):
-        return oracles.check_c04(ix, amo_positions(cfg["program"]))
+        return oracles.check_c04(ix, amo_positions(cfg["program"]), cfg["program"])
 
     def nontrivial(self, w, ix, cfg):
         return any(i["outcome"] in ("crash", "raise") for i in w.invocations) and bool(amo_positions(cfg["program"]))
@@ -480,7 +480,7 @@ class C07(Check):
             "faults stop; non-trivial iff >=1 PENDING return")
     base_profile = {"weights": {"wait": 4, "callback": 2, "wfc": 2, "invoke": 2, "wfcond": 2, "parallel": 4, "map": 2, "step": 4},
                     "fault_kinds": ["crash-api", "crash-fn", "crash-step", "spurious", "spurious", "clock-jump", "clock-jump"],
-                    "blocks": [0, 0, 0.05, 0.5, 2.0, 8.0], "try_p": 0.4, "cfg_p": 0.8, "fail_p": 0.4, "amo_p": 0.3}
+                    "blocks": [0, 0, 0.05, 0.5, 2.0, 8.0], "try_p": 0.4, "cfg_p": 0.8, "fail_p": 0.4, "amo_p": 0.3, "lines_p": 0.6}
 
     @staticmethod
     def invocation_bound(cfg):
@@ -1209,6 +1209,13 @@ class C16(Check):
                 else:
                     brs.append({"body": [{"op": "step"}], "ret": ["big", max(1, rng.choice([per - 80, per - 10, per, per + 10, per + 200, ck + 5, 2 * ck]))]})
             c = {"tol": n}
+            if n >= 2 and rng.random() < 0.3:
+                # early completion: the oversized result is decided while other branches are still running (they take time)
+                c = {"min": rng.randrange(1, n)}
+                for b_ in brs:
+                    if b_["body"] and b_["body"][0]["op"] == "step" and rng.random() < 0.6:
+                        b_["body"][0] = {"op": "step", "fn": {"attempts": [{"do": "ret", "v": ["int", 1],
+                                                                            "block": rng.choice([0.05, 0.5, 2.0, 4.0])}]}}
             if rng.random() < 0.5:
                 c["summary"] = True
             if rng.random() < 0.35:
